@@ -4,7 +4,7 @@ from vlib import *
 
 PROP = "C04"
 GENS = []
-CONE = ["Base/Str.v", "Trie/TrieModel.v", "Trie/TrieAbs.v", "Trie/TrieProofs.v", "Props/C04.v"]
+CONE = ["Base/Str.v", "Trie/TrieModel.v", "Trie/TrieAbs.v", "Trie/TrieOps.v", "Trie/TrieEdge.v", "Trie/TrieRebase.v", "Trie/TrieInsert.v", "Trie/TrieProofs.v", "Props/C04.v"]
 THEOREMS_FILE = os.path.join(COQ, "Props", "C04.v")
 IMPORTS = "From Chokan Require Import Base.Str Trie.TrieModel.\nFrom Coq Require Import Arith."
 
